@@ -2,8 +2,9 @@
 import ast
 import itertools
 from .. import nf as N
+from .. import pw as P
 from ..flow import Flow, norm, is_self_attr, call_name
-from ..interp import (Interp, Env, Frame, Func, Const, Num, Seq, Obj, Label, Types, Unsupported, Raised, NONE,
+from ..interp import (Interp, Env, Frame, Func, Const, Num, Arr, Seq, Obj, Label, Types, Unsupported, Raised, NONE,
                       TRUE, FALSE, const_num)
 from ..model import AnalysisError
 from .. import natives as NAT
@@ -558,63 +559,91 @@ def rule_valuetable(ctx, rule='R14.v'):
         ctx.violation(rule, VT + '.__iter__', 'iter', 'does not yield (i,t,values[t]) over enumerate(types)', m.loc())
 
 
+def _run_export(prog, case):
+    """exportToMatrixArray of the real class, abstractly executed on a three-pair table (a,a) (a,b) (b,b):
+    case 'equal'   all three arrays have the same length,
+         'unequal' the (b,b) array has another length,
+         'unset'   the (a,b) entry is None"""
+    from .. import worlds as W
+    ip = Interp(prog)
+    NAT.install_containers(ip, domain_transforms=False, tables=False, matrixarray=True)
+    cls = prog.cls(PT)
+    for nm in ('w', 'v'):
+        ip.declare(nm, 'curve')
+    la, lb = Label('a'), Label('b')
+    ip.distinct.add(frozenset(('a', 'b')))
+    arrs = [Arr(N.sym('w'), 'cell_aa', ip), Arr(2 * N.sym('w'), 'cell_ab', ip),
+            Arr(3 * N.sym('w') if case != 'unequal' else N.sym('v'), 'cell_bb', ip)]
+    vals = list(arrs)
+    if case == 'unset':
+        vals[1] = NONE
+    triples = Seq([Seq([Seq([const_num(0), const_num(0)]), Seq([la, la]), vals[0]]),
+                   Seq([Seq([const_num(0), const_num(1)]), Seq([la, lb]), vals[1]]),
+                   Seq([Seq([const_num(1), const_num(1)]), Seq([lb, lb]), vals[2]])], 'list')
+    types = Types()
+    o = Obj(cls, {'types': types, 'name': Const('tbl'), 'symmetric': Const(True)}, 'self')
+    from ..interp import Native
+    calls = []
+
+    def iterpairs(ip2, s_, a_, k_, n_):
+        calls.append((list(a_), dict(k_)))
+        return triples
+    ip.natives[('PairTable', 'iterpairs')] = iterpairs
+    m = cls.find_method('exportToMatrixArray')
+    res = ip.call(ip.make_func(m, o), [], {'space': Const(('Space', 'Fourier'))})
+    return ip, {'res': res, 'arrs': arrs, 'labels': (la, lb), 'iter_calls': calls}
+
+
 def rule_export(ctx, rule='R12.e'):
-    """exportToMatrixArray refuses unset entries and unequal lengths before building the MatrixArray and
-    stores every pair under its own key"""
+    """exportToMatrixArray refuses unset entries and unequal lengths with ValueError before anything is built, and
+    stores every pair function under its own key (abstract execution of the real method on a three-pair table in the
+    equal / unequal / unset cases -- no matching of how the guard happens to be spelled)"""
     cls = ctx.prog.cls(PT)
     m = cls.find_method('exportToMatrixArray')
     construct = PT + '.exportToMatrixArray'
-    fl = Flow(m.node)
-    ctor = [st for st in fl.statements() if isinstance(st, ast.Assign) and isinstance(st.value, ast.Call)
-            and call_name(st.value) == 'MatrixArray']
-    raises = [n for n in ast.walk(m.node) if isinstance(n, ast.Raise)]
-    len_raise = []
-    for r in raises:
-        g = fl.guards(r)
-        txt = ' '.join(norm(t) for t, _ in g)
-        exc = call_name(r.exc) if isinstance(r.exc, ast.Call) else None
-        if 'len(set(' in txt and exc == 'ValueError':
-            # evaluate: refuses iff number of distinct lengths > 1
-            t, pol = g[-1] if len(g) == 1 else (g[0])
-            len_raise.append((r, g))
     bad = []
-    if len(ctor) != 1:
-        bad.append('MatrixArray construction not found')
-    if not len_raise:
-        bad.append('no ValueError on differing lengths')
-    else:
-        r, g = len_raise[0]
-        ok_tab = _length_guard_table(g)
-        if ok_tab is not True:
-            bad.append('length guard does not refuse exactly when lengths differ: %s' % ok_tab)
-        if ctor and not fl.dominates(fl.stmt_of(r) if not isinstance(fl.parent.get(r), ast.If) else fl.parent.get(r), ctor[0]):
-            top = r
-            while fl.parent.get(top) is not m.node:
-                top = fl.parent.get(top)
-            if not fl.dominates(top, ctor[0]):
-                bad.append('the length refusal does not precede the MatrixArray construction')
-    # lengths collected from every pair
-    appends = [n for n in ast.walk(m.node) if isinstance(n, ast.Call) and call_name(n) and call_name(n).endswith('.append')]
-    loops = [n for n in ast.walk(m.node) if isinstance(n, ast.For)]
-    if not any(norm(l.iter) == 'self.iterpairs()' and any(a in ast.walk(l) for a in appends) for l in loops):
-        bad.append('lengths are not collected over self.iterpairs()')
-    stores = []
-    for l in loops:
-        for st in l.body:
-            if isinstance(st, ast.Assign) and isinstance(st.targets[0], ast.Subscript) and ctor and \
-                    norm(st.targets[0].value) == norm(ctor[0].targets[0]):
-                names = names_in_order(l.target)
-                stores.append((norm(l.iter), norm(st.targets[0].slice), norm(st.value), names))
-    if not any(it == 'self.iterpairs()' and key in ('(%s,%s)' % (nm[-3], nm[-2]),) and val == nm[-1] for it, key, val, nm in stores):
-        bad.append('values are not stored per pair under their own key: %s' % stores)
-    none_raise = [r for r in raises if any('isNone' in norm(t) for t, _ in fl.guards(r))]
-    if not none_raise:
-        bad.append('unset entries are not refused')
+    try:
+        for case in ('unequal', 'unset'):
+            try:
+                ip, r = _run_export(ctx.prog, case)
+                bad.append('a table with %s is exported instead of being refused'
+                           % ('arrays of different lengths' if case == 'unequal' else 'an unset entry'))
+            except Raised as e:
+                if e.exc != 'ValueError':
+                    bad.append('a table with %s raises %s, not ValueError' % ('arrays of different lengths' if case == 'unequal' else 'an unset entry', e.exc))
+        try:
+            ip, r = _run_export(ctx.prog, 'equal')
+        except Raised as e:
+            bad.append('a fully specified table with equal lengths is refused: %s %s' % (e.exc, e.msg))
+            ip = r = None
+    except Unsupported as e:
+        ctx.undecided(rule, construct, str(e), m.loc())
+        return
+    if r is not None:
+        res = r['res']
+        if not (isinstance(res, Obj) and res.isa('MatrixArray')):
+            bad.append('does not return a MatrixArray')
+        else:
+            writes = {tuple(sorted(w['pair'])): w['term'] for w in ip.entry_writes}
+            want = {('a', 'a'): N.sym('w'), ('a', 'b'): 2 * N.sym('w'), ('b', 'b'): 3 * N.sym('w')}
+            for k_, t_ in want.items():
+                if k_ not in writes or not writes[k_].equals(t_):
+                    bad.append('pair %s receives %s instead of its own array' % (k_, N.show(writes[k_]) if k_ in writes else 'nothing'))
+            sp = res.attrs.get('space')
+            if getattr(sp, 'v', None) != ('Space', 'Fourier'):
+                bad.append('the requested space is not passed on to the MatrixArray (%r)' % (getattr(sp, 'v', sp),))
+            ln = res.attrs.get('length')
+            if not (isinstance(ln, Num) and not P.is_pw(ln.t) and ln.t.equals(N.sym('len(w)'))):
+                bad.append('MatrixArray length is %r, not the common length of the arrays' % (ln,))
+            for args_, kw_ in r['iter_calls']:
+                if args_ or any(not (isinstance(v_, Const) and v_.v in (True, False)) for v_ in kw_.values()) or \
+                        any(k_ == 'diagonal' and v_.v is False for k_, v_ in kw_.items()):
+                    bad.append('pairs are enumerated with iterpairs(%s): not every unordered pair is visited' % kw_)
     if bad:
-        ctx.violation(rule, construct, 'export', '; '.join(bad), m.loc())
+        ctx.violation(rule, construct, 'export', '; '.join(sorted(set(bad))), m.loc())
     else:
-        ctx.holds(rule, construct, 'ValueError on unset entries and on differing lengths before MatrixArray(...); '
-                  'MA[t1,t2] = val for every unordered pair', m.loc())
+        ctx.holds(rule, construct, 'ValueError on unset entries and on differing lengths; MA[t1,t2] = own array for every unordered pair; '
+                  'space and common length passed on (3 abstract executions)', m.loc())
 
 
 def _length_guard_table(g):
